@@ -379,7 +379,10 @@ where
         let (new_laidx, n_pstack) =
             self.parser
                 .lr_cactus(None, laidx, laidx + 1, n.pstack.clone(), &mut None);
-        if n.pstack != n_pstack {
+        // Note that shifting a lexeme can leave the parse stack looking exactly as it did before
+        // (e.g. the third and subsequent elements of a left-recursive list), so we can't use
+        // "the stack changed" as our only test of whether anything happened.
+        if new_laidx > laidx || n.pstack != n_pstack {
             let n_repairs = if new_laidx > laidx {
                 n.repairs.child(RepairMerge::Repair(Repair::Shift))
             } else {
